@@ -30,7 +30,7 @@ func (e *Engine) newExec(q string, c *Contract) *Exec {
 	x := &Exec{eng: e, b: NewBank(), mode: c.Mode, qual: q, contract: c,
 		leafCache: map[string][]leaf{}, leafByType: map[types.Type][]leaf{}, abstracted: map[string]int{}, strLits: map[string]*Term{},
 		nameCount: map[string]int{}, usedContracts: map[string]bool{}, usedTrusted: map[string]bool{},
-		addrTaken: map[types.Object]*Term{}}
+		addrTaken: map[types.Object]*Term{}, initKeys: map[string]bool{}}
 	return x
 }
 
@@ -263,6 +263,9 @@ func (x *Exec) runFunc(fd *ast.FuncDecl, c *Contract, sc splitCase, first bool) 
 	if first && len(c.Subst) > 0 {
 		x.substCoverage(fd, c, sig, bodyPos)
 	}
+	if first && len(c.Subst) == 0 && hasCaseRequires(c) {
+		x.caseCoverage(fd, c, sig, bodyPos)
+	}
 
 	// preconditions
 	for _, r := range c.Requires {
@@ -300,94 +303,53 @@ func (x *Exec) runFunc(fd *ast.FuncDecl, c *Contract, sc splitCase, first bool) 
 			exits = append(exits, r)
 		}
 	}
-	exit := x.mergeAll(exits)
-	if exit == nil {
+	if len(exits) == 0 {
 		// function never returns normally under the precondition
 		x.note("no-normal-exit")
 		return
 	}
-	// postconditions
+	// postconditions are checked per exit path (same obligation base name)
+	if len(exits) > 96 || c.MergeExits {
+		exits = []*State{x.mergeAll(exits)}
+	}
 	endPos := fd.Body.Rbrace
-	for i, n := range fr.resNames {
-		exit.names[n] = exit.env[fr.results[i]]
-	}
-	// parameters in postconditions: entry values, except slices (final contents)
-	for obj, v := range pre.env {
-		if _, isVar := obj.(*types.Var); !isVar {
+	for _, exit := range exits {
+		if exit == nil || x.infeasible(exit) {
 			continue
 		}
-		name := obj.Name()
-		if kindOf(obj.Type()) == kSlice {
-			if fv, ok := exit.env[obj]; ok {
-				exit.names[name] = fv
+		for i, n := range fr.resNames {
+			exit.names[n] = exit.env[fr.results[i]]
+		}
+		// parameters in postconditions: entry values, except slices (final contents)
+		for obj, v := range pre.env {
+			if _, isVar := obj.(*types.Var); !isVar {
+				continue
 			}
-			pre.names["old$"+name] = v
-		} else if !contains(fr.resNames, name) {
-			exit.names[name] = v
-		}
-	}
-	for _, en := range c.Ensures {
-		if en.Free {
-			continue
-		}
-		es := exit.clone()
-		x.skolem = true
-		g := x.evalClause(es, en, endPos)
-		x.skolem = false
-		x.oblige(es, "post", en.Name, g, fd.Pos(), en.Props)
-	}
-	// frame: heap arrays not in modifies are unchanged
-	if c.Modifies != nil || c.Pure {
-		x.checkFrame(exit, pre, c, fd.Pos())
-	}
-}
-
-func (x *Exec) checkFrame(exit, pre *State, c *Contract, pos token.Pos) {
-	allowed := func(k string) bool {
-		if strings.HasPrefix(k, "ghost.mutexHeld") {
-			return contains(c.Modifies, "ghost.mutexHeld")
-		}
-		for _, m := range c.Modifies {
-			if m == "*" || m == "heap" || m == k || strings.HasPrefix(k, m+".") {
-				return true
-			}
-			if strings.HasSuffix(m, ".*") && strings.HasPrefix(k, m[:len(m)-1]) {
-				return true
+			name := obj.Name()
+			if kindOf(obj.Type()) == kSlice {
+				if fv, ok := exit.env[obj]; ok {
+					exit.names[name] = fv
+				}
+				pre.names["old$"+name] = v
+			} else if !contains(fr.resNames, name) {
+				exit.names[name] = v
 			}
 		}
-		return false
-	}
-	var keys []string
-	for k := range exit.heap {
-		keys = append(keys, k)
-	}
-	sort.Strings(keys)
-	var cs []*Term
-	var changed []string
-	for _, k := range keys {
-		if allowed(k) {
-			continue
+		for _, en := range c.Ensures {
+			if en.Free {
+				continue
+			}
+			es := exit.clone()
+			x.skolem = true
+			g := x.evalClause(es, en, endPos)
+			x.skolem = false
+			x.oblige(es, "post", en.Name, g, fd.Pos(), en.Props)
 		}
-		a := exit.heap[k]
-		o, ok := pre.heap[k]
-		if !ok {
-			o = x.b.Var("H0."+k, a.Sort)
-		}
-		eq := x.b.Eq(a, o)
-		if !eq.IsTrue() {
-			changed = append(changed, k)
-		}
-		cs = append(cs, eq)
-	}
-	for k, g := range exit.globals {
-		if strings.HasPrefix(k, "ghost.") || allowed("global."+k) {
-			continue
-		}
-		if o, ok := pre.globals[k]; ok {
-			cs = append(cs, x.eqV(g, o))
+		// frame: heap arrays not in modifies are unchanged
+		if c.Modifies != nil || c.Pure {
+			x.checkFrame(exit, pre, c, fd.Pos())
 		}
 	}
-	x.oblige(exit, "frame", "frame", x.b.And(cs...), pos, nil)
 }
 
 // learnRanges records interval facts "c <= v" / "v <= c" / "v < c" from a
@@ -537,6 +499,22 @@ func (x *Exec) substCoverage(fd *ast.FuncDecl, c *Contract, sig *types.Signature
 func (x *Exec) finishObligations() {
 	ax := append([]*Term{}, x.axioms...)
 	ax = append(ax, x.stringAxioms()...)
+	if x.useHashable {
+		ax = append(ax, x.b.App("hashable", BoolSort, x.b.Int(0)))
+		x.eng.mu.Lock()
+		ids := append([]string{}, x.eng.typeIdL...)
+		tys := x.eng.typeById
+		x.eng.mu.Unlock()
+		for i := range ids {
+			t := tys[i+1]
+			h := x.b.App("hashable", BoolSort, x.b.Int(int64(i+1)))
+			if t != nil && types.Comparable(t) && !containsIface(t, 0) {
+				ax = append(ax, h)
+			} else if t != nil && !types.Comparable(t) {
+				ax = append(ax, x.b.Not(h))
+			}
+		}
+	}
 	for _, o := range x.obls {
 		if o.bank != x.b {
 			continue
@@ -566,7 +544,7 @@ func (x *Exec) stringAxioms() []*Term {
 		t := x.strLits[s]
 		lits = append(lits, t)
 		out = append(out, x.b.Eq(x.strLen(t), x.b.Num(big.NewInt(int64(len(s))), is)))
-		if len(s) <= 64 {
+		if len(s) <= x.strContentMax() {
 			arr := x.strArr(t)
 			for i := 0; i < len(s); i++ {
 				out = append(out, x.b.Eq(x.b.Select(arr, x.b.Num(big.NewInt(int64(i)), is)), x.b.Num(big.NewInt(int64(s[i])), x.intSort(8))))
@@ -678,4 +656,167 @@ func (x *Exec) guardAccess(st *State, structT types.Type, field string, ptr *Ter
 	if x.guardHook != nil {
 		x.guardHook(st, structT, field, ptr, at, write)
 	}
+}
+
+func clauseUsesFresh(c *Contract, cl *Clause) bool {
+	uses := false
+	ast.Inspect(cl.Expr, func(n ast.Node) bool {
+		if id, ok := n.(*ast.Ident); ok {
+			for _, f := range c.Fresh {
+				if f.Name == id.Name {
+					uses = true
+				}
+			}
+		}
+		return true
+	})
+	return uses
+}
+
+func hasCaseRequires(c *Contract) bool {
+	for _, r := range c.Requires {
+		if clauseUsesFresh(c, r) {
+			return true
+		}
+	}
+	return false
+}
+
+// caseCoverage: requires that mention split variables are per-case
+// assumptions; their disjunction over all cases must follow from the other
+// requires, so that the case split is complete.
+func (x *Exec) caseCoverage(fd *ast.FuncDecl, c *Contract, sig *types.Signature, bodyPos token.Pos) {
+	y := x.eng.newExec(x.qual, c)
+	st := y.initState()
+	y.frames = []*fnFrame{{fn: fd, sig: sig, qual: x.qual}}
+	bind := func(name *ast.Ident, t types.Type) {
+		obj := y.eng.info.Defs[name]
+		if obj == nil {
+			return
+		}
+		v := &Value{T: t, L: map[string]*Term{}}
+		for _, l := range y.leavesOf(t) {
+			v.L[l.path] = y.b.Var(join("in."+name.Name, l.path), l.sort)
+		}
+		y.assumeWellFormed(st, v)
+		st.env[obj] = v
+	}
+	if fd.Recv != nil && len(fd.Recv.List) > 0 && len(fd.Recv.List[0].Names) > 0 {
+		bind(fd.Recv.List[0].Names[0], sig.Recv().Type())
+	}
+	pi := 0
+	for _, f := range fd.Type.Params.List {
+		for _, n := range f.Names {
+			bind(n, sig.Params().At(pi).Type())
+			pi++
+		}
+	}
+	for _, r := range c.Requires {
+		if !clauseUsesFresh(c, r) {
+			y.assume(st, y.evalClause(st, r, bodyPos))
+		}
+	}
+	var alts []*Term
+	for _, sc := range enumCases(c.Fresh) {
+		for _, f := range c.Fresh {
+			t := y.eng.typeByName(f.Type)
+			w, _ := intInfo(t)
+			if cv, ok := sc.vals[f.Name]; ok {
+				st.names[f.Name] = scalarV(t, y.b.Num(cv, y.intSort(w)))
+			} else {
+				y.fail("case coverage needs every fresh variable of %s to be split", x.qual)
+			}
+		}
+		var cs []*Term
+		for _, r := range c.Requires {
+			if clauseUsesFresh(c, r) {
+				cs = append(cs, y.evalClause(st.clone(), r, bodyPos))
+			}
+		}
+		alts = append(alts, y.b.And(cs...))
+	}
+	if y.failed != nil {
+		x.failed = y.failed
+		return
+	}
+	y.oblige(st, "case-cover", "case.cover", y.b.Or(alts...), fd.Pos(), nil)
+	y.finishObligations()
+	x.obls = append(x.obls, y.obls...)
+}
+
+// strContentMax: literal contents are axiomatised up to this length (longer
+// literals only get their length); CR/LF-freedom checks raise it.
+func (x *Exec) strContentMax() int {
+	if x.contract != nil {
+		for _, n := range x.contract.Notes {
+			if n == "string-contents" {
+				return 256
+			}
+		}
+	}
+	return 4
+}
+
+// containsIface: comparable statically but may panic dynamically (struct with
+// interface fields); such types get no hashable axiom (undecided).
+func containsIface(t types.Type, d int) bool {
+	if d > 6 {
+		return true
+	}
+	switch u := t.Underlying().(type) {
+	case *types.Interface:
+		return true
+	case *types.Struct:
+		for i := 0; i < u.NumFields(); i++ {
+			if containsIface(u.Field(i).Type(), d+1) {
+				return true
+			}
+		}
+	case *types.Array:
+		return containsIface(u.Elem(), d+1)
+	}
+	return false
+}
+
+func (x *Exec) checkFrame(exit, pre *State, c *Contract, pos token.Pos) {
+	allowed := func(k string) bool {
+		if strings.HasPrefix(k, "ghost.mutexHeld") {
+			return contains(c.Modifies, "ghost.mutexHeld")
+		}
+		for _, m := range c.Modifies {
+			if m == "*" || m == "heap" || m == k || strings.HasPrefix(k, m+".") {
+				return true
+			}
+			if strings.HasSuffix(m, ".*") && strings.HasPrefix(k, m[:len(m)-1]) {
+				return true
+			}
+		}
+		return false
+	}
+	var keys []string
+	for k := range exit.heap {
+		keys = append(keys, k)
+	}
+	sort.Strings(keys)
+	var cs []*Term
+	for _, k := range keys {
+		if allowed(k) || x.initKeys[k] {
+			continue
+		}
+		a := exit.heap[k]
+		o, ok := pre.heap[k]
+		if !ok {
+			o = x.b.Var("H0."+k, a.Sort)
+		}
+		cs = append(cs, x.b.Eq(a, o))
+	}
+	for k, g := range exit.globals {
+		if strings.HasPrefix(k, "ghost.") || strings.HasPrefix(k, "const.") || allowed("global."+k) {
+			continue
+		}
+		if o, ok := pre.globals[k]; ok {
+			cs = append(cs, x.eqV(g, o))
+		}
+	}
+	x.oblige(exit, "frame", "frame", x.b.And(cs...), pos, nil)
 }
